@@ -270,6 +270,7 @@ type world struct {
 	httpCh   *nsqd.Channel
 	rdyC     *client
 	rdyCh    *nsqd.Channel
+	extraTags []string
 }
 
 func newWorld(idx int, maxReq time.Duration, maxRdy int64, maxMsg, defMsg time.Duration) *world {
@@ -669,9 +670,11 @@ func runOne(o *lib.Out, r *lib.Rand, ws []*world, name string, in NumIn) {
 	}
 	var w *world
 	if in.World == edgeWorld {
-		// only reachable from a replay file: max-req-timeout = MaxInt64 ns exactly (C04_dpub_edge)
+		// a third, tiny configuration: max-req-timeout = MaxInt64 ns exactly (theorem C04_dpub_edge,
+		// known finding K9); every case run here carries the tag kf=K9
 		if edge == nil {
 			edge = newWorld(edgeWorld, time.Duration(math.MaxInt64), 2500, 15*time.Minute, 60*time.Second)
+			edge.extraTags = []string{"kf=K9"} // known_findings.json K9
 		}
 		w = edge
 	} else {
@@ -750,7 +753,7 @@ func runOne(o *lib.Out, r *lib.Rand, ws []*world, name string, in NumIn) {
 		}
 		o.Emit(lib.Case{Name: name,
 			Coq:   fmt.Sprintf("(J04.%s %d %s %d %s %s %s)", ctor, int64(w.maxReq), zbytes(seen), outcome, z(t0), z(t1), z(pri)),
-			Input: in, Tags: []string{"kind=live-" + in.Path, "class=" + class, outcomeTag(in.Path, outcome), fmt.Sprintf("world=%d", w.idx)},
+			Input: in, Tags: append([]string{"kind=live-" + in.Path, "class=" + class, outcomeTag(in.Path, outcome), fmt.Sprintf("world=%d", w.idx)}, w.extraTags...),
 			Nontrivial: true, Obs: obs})
 	case "msgtimeout":
 		w.msgTimeout(o, r, name, in.V, map[string]interface{}{"kind": "num", "path": "msgtimeout", "world": in.World, "v": in.V})
@@ -832,6 +835,13 @@ func main() {
 		}
 	}
 	o.Stat("boundary_spellings", count)
+	// known finding K9, replayed on every run: with max-req-timeout = MaxInt64 ns delays above
+	// the maximum are accepted, and deadlines beyond 2^63 ns wrap (released at once)
+	for i, kc := range []struct{ path, sp string }{
+		{"dpub", "9223372036855"}, {"http", "9223372036855"}, {"dpub", "99999999999999999999999"},
+		{"dpub", "9223372036854"}, {"req", "9223372036855"}} {
+		runOne(o, r, ws, fmt.Sprintf("k9-%d-%s", i, kc.path), mkIn(kc.path, edgeWorld, spelling{[]byte(kc.sp), "K9-max-req-timeout=MaxInt64"}))
+	}
 	for k := 0; k < *n; k++ {
 		wi := k % len(ws)
 		w := ws[wi]
